@@ -28,97 +28,132 @@ def decode_int(bs, endian, sign):
     return u
 
 
-def spec_run(m):
-    """Independent Python statement of the property on one history: expected per-op results, log
-    and final memory, or None when some op is outside the property's quantifier."""
-    addr, L, en, base, mem = m["addr"], m["length"], m["endian"], m["base"], list(m["image"])
+def spec_step(m, mem, op):
+    """One operation of the property on the device memory mem: -> (result, log entry or None, image
+    written or None) or None when the operation is outside the property's quantifier."""
+    addr, L, en, base = m["addr"], m["length"], m["endian"], m["base"]
     off = addr - base
-    inside = 0 <= off and off + L <= len(mem)
+    if not (0 <= off and off + L <= len(mem)):
+        return None
+    k = op[0]
+    n = m["nodes"][op[1]]
+    kind, sign = n["kind"], n.get("sign", 0)
+    R = ("R", addr, L)
+    if k == "v" and kind == "int":
+        if L not in (1, 2, 4, 8):
+            return [1, 35], R, None
+        return [0, decode_int(mem[off:off + L], en, sign)], R, None
+    if k == "s" and kind == "int":
+        if L not in (1, 2, 4, 8):
+            return [1, 35], None, None
+        if not in_range(op[2], L, sign):
+            return None
+        return [0], None, int_image(op[2], L, en)
+    if k == "fv" and kind == "float":
+        if L not in (4, 8):
+            return [1, 35], R, None
+        b = mem[off:off + L]
+        u = sum(x << (8 * i) for i, x in enumerate(b[::-1] if en else b))
+        if L == 4:
+            u = widen_bits(u)
+            if u is None:
+                u = NAN
+        elif (u >> 52) & 0x7FF == 0x7FF and u & ((1 << 52) - 1):
+            u = NAN
+        return [0, u], R, None
+    if k == "fs" and kind == "float":
+        if L not in (4, 8):
+            return [1, 35], None, None
+        u = op[2]
+        if L == 4:
+            u = narrow_bits(u)
+            if u is None:
+                return None
+        img = [(u >> (8 * i)) & 255 for i in range(L)]
+        return [0], None, (img[::-1] if en else img)
+    if k == "sv" and kind == "string":
+        b = mem[off:off + L]
+        if any(x >= 128 for x in b):
+            return None
+        sv = b[:b.index(0)] if 0 in b else b
+        return [0, len(sv)] + sv, R, None
+    if k == "ss" and kind == "string":
+        sv = list(op[2])
+        if any(x >= 128 for x in sv) or 0 in sv or len(sv) > L:
+            return [1, 33], None, None      # unrepresentable: refused, no device write
+        return [0], None, sv + [0] * (L - len(sv))
+    if k == "rr":
+        if op[2] != L:
+            return [1, 35], None, None
+        return [0] + mem[off:off + L], R, None
+    if k == "rw":
+        if len(op[2]) != L:
+            return [1, 35], None, None
+        return [0], None, list(op[2])
+    return None
+
+
+def spec_run(m):
+    """Independent Python statement of the property on one fault-free history: expected per-op results, log
+    and final memory, or None when some op is outside the property's quantifier."""
+    addr, L, base, mem = m["addr"], m["length"], m["base"], list(m["image"])
+    off = addr - base
     res, log = [], []
     for op in m["ops"]:
-        k = op[0]
-        if k == "rej":
+        if op[0] == "rej":
             return None
-        n = m["nodes"][op[1]]
-        kind, sign = n["kind"], n.get("sign", 0)
-        if not inside:
+        st = spec_step(m, mem, op)
+        if st is None:
             return None
-        if k == "v" and kind == "int":
-            log.append(("R", addr, L))
-            if L not in (1, 2, 4, 8):
-                res.append([1, 35])
-            else:
-                res.append([0, decode_int(mem[off:off + L], en, sign)])
-        elif k == "s" and kind == "int":
-            if L not in (1, 2, 4, 8):
-                res.append([1, 35])
-            elif not in_range(op[2], L, sign):
-                return None
-            else:
-                img = int_image(op[2], L, en)
-                log.append(("W", addr, img))
-                mem[off:off + L] = img
-                res.append([0])
-        elif k == "fv" and kind == "float":
-            log.append(("R", addr, L))
-            if L not in (4, 8):
-                res.append([1, 35])
-            else:
-                b = mem[off:off + L]
-                u = sum(x << (8 * i) for i, x in enumerate(b[::-1] if en else b))
-                if L == 4:
-                    u = widen_bits(u)
-                    if u is None:
-                        u = NAN
-                elif (u >> 52) & 0x7FF == 0x7FF and u & ((1 << 52) - 1):
-                    u = NAN
-                res.append([0, u])
-        elif k == "fs" and kind == "float":
-            if L not in (4, 8):
-                res.append([1, 35])
-            else:
-                u = op[2]
-                if L == 4:
-                    u = narrow_bits(u)
-                    if u is None:
-                        return None
-                img = [(u >> (8 * i)) & 255 for i in range(L)]
-                img = img[::-1] if en else img
-                log.append(("W", addr, img))
-                mem[off:off + L] = img
-                res.append([0])
-        elif k == "sv" and kind == "string":
-            log.append(("R", addr, L))
-            b = mem[off:off + L]
-            if any(x >= 128 for x in b):
-                return None
-            s = b[:b.index(0)] if 0 in b else b
-            res.append([0, len(s)] + s)
-        elif k == "ss" and kind == "string":
-            s = list(op[2])
-            if any(x >= 128 for x in s) or 0 in s or len(s) > L:
-                res.append([1, 33])      # unrepresentable: refused, no device write
-            else:
-                img = s + [0] * (L - len(s))
-                log.append(("W", addr, img))
-                mem[off:off + L] = img
-                res.append([0])
-        elif k == "rr":
-            if op[2] != L:
-                res.append([1, 35])
-            else:
-                log.append(("R", addr, L))
-                res.append([0] + mem[off:off + L])
-        elif k == "rw":
-            if len(op[2]) != L:
-                res.append([1, 35])
-            else:
-                log.append(("W", addr, list(op[2])))
-                mem[off:off + L] = list(op[2])
-                res.append([0])
-        else:
-            return None
+        r, rd, img = st
+        res.append(r)
+        if rd is not None:
+            log.append(rd)
+        if img is not None:
+            log.append(("W", addr, img))
+            mem[off:off + L] = img
     return res, log, mem
+
+
+def spec_check_faulty(m, res, wlog, final):
+    """Histories with scripted rejections of device accesses ('rej': one of the next accesses fails): the operation
+    the rejection hits fails with a device error and leaves the device as it was (its single write, if it got that
+    far, was the refused access); every other operation returns what the property requires for the bytes the device
+    really holds -- in particular a value read back after a failed write is the OLD value, and a repeated
+    operation works on the device's contents."""
+    addr, L, base = m["addr"], m["length"], m["base"]
+    off = addr - base
+
+    def go(i, mem, armed, wi):
+        if i == len(m["ops"]):
+            if wi != len(wlog):
+                return "device writes beyond the required ones"
+            return None if list(final) == list(mem) else "final device memory differs from the required image"
+        op = m["ops"][i]
+        if op[0] == "rej":
+            return go(i + 1, mem, armed + 1, wi)
+        st = spec_step(m, mem, op)
+        if st is None:
+            return None
+        r, rd, img = st
+        if res[i] == [1, 30] and armed > 0 and (rd is not None or img is not None):
+            x = go(i + 1, mem, armed - 1, wi)
+            if x is None:
+                return None
+            if img is not None and wi < len(wlog) and tuple(map(_t, wlog[wi])) == ("W", addr, tuple(img)):
+                return go(i + 1, mem, armed - 1, wi + 1)
+            return x
+        if res[i] != r:
+            return "op %d %r: result %r, the property requires %r (for the bytes the device holds)" % (i, op[:2], res[i][:6], r[:6])
+        if img is not None:
+            if wi >= len(wlog) or tuple(map(_t, wlog[wi])) != ("W", addr, tuple(img)):
+                return "op %d %r: device write differs from the required image" % (i, op[:2])
+            mem = list(mem)
+            mem[off:off + L] = img
+            wi += 1
+        return go(i + 1, mem, armed, wi)
+
+    return go(0, list(m["image"]), 0, 0)
 
 
 def predicate(c, out):
@@ -136,6 +171,8 @@ def predicate(c, out):
         ln = e[2] if e[0] == "R" else len(e[2])
         if e[1] != m["addr"] or ln != m["length"]:
             return "device access %r outside [address, address+length)" % (e[:2],)
+    if any(op[0] == "rej" for op in m["ops"]):
+        return spec_check_faulty(m, res, [e for e in log if e[0] == "W"], mem)
     exp = spec_run(m)
     if exp is None:
         return None
@@ -171,13 +208,13 @@ def gen_cases(ck):
     def img(n):
         return bytes(rng.bytes(n))
 
-    def add(kind, L, en, sign, ops, addr=None, flags=1, image=None, pad=8):
+    def add(kind, L, en, sign, ops, addr=None, flags=1, image=None, pad=8, cachable=None, port_swap=False):
         base = rng.choice([0, 0x1000, 0x7FFFFFF0, (1 << 40) + 3])
         a = base + rng.below(pad) if addr is None else addr
         image = img(L + 2 * pad) if image is None else image
         node = dict(kind=kind, sign=sign)
         c = reg_case(a, L, en, base, image, [node], ops, flags=flags,
-                     cachable="NoCache" if flags & 1 else "WriteThrough")
+                     cachable=cachable or ("NoCache" if flags & 1 else "WriteThrough"), port_swap=port_swap)
         if not flags & 1:
             c.kind = "reg-cached"      # the uncached model does not apply: implementation-only predicate
         cases.append(c)
@@ -262,6 +299,45 @@ def gen_cases(ck):
                ("rw", 0, img(L + 1)), ("rw", 0, img(max(L - 1, 0))), ("rr", 0, L)]
         for kind in ("raw", "int", "float", "string"):
             add(kind, L, 0, 0, ops)
+    # device accesses that fail at scripted points (a rejected read, a rejected write), followed by reads back and
+    # repeated operations: uncached (compared with the model too) and with every caching mode
+    def rej_history(kind, L, en, sign):
+        def val():
+            if kind == "int":
+                n = 8 * L
+                return ("s", 0, rng.range(-(1 << (n - 1)), (1 << (n - 1)) - 1) if sign else rng.below(min(1 << n, 1 << 63)))
+            if kind == "float":
+                return ("fs", 0, f64_bits(float(rng.range(-1000, 1000)) / 8))
+            if kind == "string":
+                return ("ss", 0, bytes(rng.range(65, 90) for _ in range(rng.below(L + 1))))
+            return ("rw", 0, img(L))
+        rd = {"int": ("v", 0), "float": ("fv", 0), "string": ("sv", 0), "raw": ("rr", 0, L)}[kind]
+        ops = []
+        for _i in range(rng.range(3, 8)):
+            if rng.chance(1, 3):
+                ops.append(("rej", rng.choice([0, 0, 0, 1])))
+            o = rng.choice([val(), rd, rd])
+            ops.append(o)
+            if rng.chance(1, 3):
+                ops.append(o if rng.chance(1, 2) else rd)      # the caller repeats it / reads back
+        ops += [rd, rd]
+        return ops
+    for _ in range(40 if quick else 1500):
+        kind = rng.choice(["int", "int", "float", "string", "raw"])
+        L = {"int": rng.choice([1, 2, 4, 8]), "float": rng.choice([4, 8]), "string": rng.choice([1, 5, 16]),
+             "raw": rng.choice([1, 3, 8])}[kind]
+        en, sign = rng.below(2), rng.below(2)
+        ops = rej_history(kind, L, en, sign)
+        image = bytes(rng.range(1, 127) for _ in range(L + 16))
+        add(kind, L, en, sign, ops, image=image)
+        for mode in ("WriteThrough", "WriteAround", "NoCache"):
+            add(kind, L, en, sign, ops, image=image, flags=0, cachable=mode)
+    # a port declared with SwapEndianess: the image of a string or of a raw register has no byte order to swap
+    for L in (1, 2, 8, 16):
+        sv = bytes(rng.range(65, 90) for _ in range(max(L - 1, 0)))
+        add("string", L, 0, 0, [("sv", 0), ("ss", 0, sv), ("sv", 0), ("ss", 0, b"A"[:L]), ("sv", 0)],
+            image=bytes(rng.range(65, 90) for _ in range(L + 16)), port_swap=True)
+        add("raw", L, 0, 0, [("rr", 0, L), ("rw", 0, img(L)), ("rr", 0, L)], port_swap=True)
     # registers at the edge of / outside the device memory: error, no panic
     for L in (1, 4, 8):
         base = 0x100
@@ -279,7 +355,9 @@ def main():
              "pairs: exhaustive for 8/16-bit integers, boundaries (each 2^k and neighbours, min, max) + seeded random "
              "for 32/64-bit, floats incl. +-0, inf, NaN, subnormals, f32 rounding boundaries, random bit patterns, "
              "strings of every length 0..len+1 incl. non-ASCII and embedded NUL, raw reads/writes with wrong buffer "
-             "lengths, random prior device images; real nodes built from XML by GenApiBuilder vs the extracted model; "
+             "lengths, random prior device images; histories with device accesses rejected at scripted points followed by "
+             "reads back and repeated operations, uncached and with each caching mode; string / raw registers behind a "
+             "port declared SwapEndianess; real nodes built from XML by GenApiBuilder vs the extracted model; "
              "predicate = independent Python statement of the property (two's-complement / IEEE-754 via struct / "
              "NUL-padded ASCII image, exact touched range, refusal without write); non-trivial = at least one device write",
         trusted=["StringReg reads of non-ASCII device bytes (from_utf8_lossy) are outside the model and the quantifier",
